@@ -26,6 +26,7 @@ const DECLS: &str = r#"  let Bool = data | +T : Unit | +F : Unit end that
   let k : Thk (forall (A : VType) (B : VType) . A -> B -> Ret A) = { fn (A : VType) (B : VType) (x : A) (y : B) => ret x } that
   let ap : Thk (forall (F : VType -> VType) (A : VType) . F A -> Ret (F A)) = { fn (F : VType -> VType) (A : VType) (x : F A) => ret x } that
   let dup : Thk (forall (A : VType) . A -> Ret (Dup A)) = { fn (A : VType) (x : A) => ret (x, x) } that
+  let frc : Thk (forall (R : CType) . Thk R -> R) = { fn (R : CType) (t : Thk R) => ! t } that
 "#;
 
 fn ty(e: &Value, top: bool) -> String {
@@ -88,6 +89,7 @@ pub fn render(c: &Value) -> String {
             | "three" => "3",
             | "tt" => "+T()",
             | "pair" => "(3, 4)",
+            | "thk3" => "{ ret 3 }",
             | v => v,
         })
         .collect();
